@@ -372,6 +372,8 @@ def _seen_atom(facts, found):
 
 @rule('MK-ROUTE', {
     'C15': 'the visible DAG is exactly the received nodes all of whose ancestors have been received; others stay invisible as orphans',
+    'C02': 'MerkleReg::merge is apply of every node of the other side (MK-MERGE): the merge laws hold only if apply files each node by '
+           'the presence of its children alone',
     'C03': 'merge is op delivery of the other side\'s nodes through this routine (MK-MERGE): a node filed wrongly reads differently '
            'from the replica that received the same nodes in another mix of ops and merges',
 }, floor=1)
@@ -488,6 +490,7 @@ def mk_route(ctx):
     'C15': 'orphans become visible as soon as the gap is filled; without re-examination a filled gap leaves descendants invisible',
     'C08': 'MerkleReg needs no delivery order at all',
     'C03': 'the reads depend on the set of nodes learned, not on whether a parent came as an op before or inside a state after its child',
+    'C02': 'merging in either order must surface the same orphans once their parents are there',
 }, floor=1)
 def mk_reexam(ctx):
     """After dag.insert every path re-examines the orphans: every orphan whose children are now all in dag is removed
